@@ -630,6 +630,72 @@ def fill_prefix(rng, kind, n, cap):
     return ops
 
 
+def script_calls(text):
+    """the add/bind/put calls a script text makes, as far as this (deliberately narrow) reader of src/script.rs's grammar
+    understands it: [("ADD", id), ("BIND", id, id, label text), ("PUT", id)] with ids either ints or ("$", name); the list
+    ends with None at the first command it does not understand (malformed, or a form this reader does not cover)"""
+    import re
+    clean = re.sub(r"#.*\n", "", text)
+    out = []
+    for cmd in [c.strip() for c in clean.split(";")]:
+        if not cmd:
+            continue
+        m = re.fullmatch(r"([A-Z]+) *\(([^)]*)\)", cmd, re.S)
+        if not m:
+            out.append(None)
+            return out
+        args = [a.strip() for a in m.group(2).split(",")]
+        args = [a for a in args if a]
+
+        def ident(a):
+            if a.startswith("$"):
+                return ("$", a[1:])
+            if a.startswith("ν"):
+                a = a[1:]
+            return int(a) if re.fullmatch(r"[0-9]{1,9}", a) else None
+        k = m.group(1)
+        need = {"ADD": 1, "BIND": 3, "PUT": 2}.get(k)
+        if need is None or len(args) < need:
+            out.append(None)
+            return out
+        ids = [ident(a) for a in args[: (2 if k == "BIND" else 1)]]
+        if any(i is None for i in ids):
+            out.append(None)
+            return out
+        if k == "PUT" and not re.fullmatch(r"([0-9A-Fa-f]{2})+", re.sub(r"[ \t\n\r-]", "", args[1])):
+            out.append(None)
+            return out
+        out.append((k,) + tuple(ids) + ((args[2],) if k == "BIND" else ()))
+    return out
+
+
+def _apply_script(tr, text):
+    """replays the calls of a script on the tracker; True = understood to the end"""
+    vs = {}
+
+    def val(i):
+        if isinstance(i, tuple):
+            if i[1] not in vs:
+                vs[i[1]] = tr.next_id()
+            return vs[i[1]]
+        return i
+    for c in script_calls(text):
+        if c is None:
+            return False
+        ids = [val(i) for i in c[1:(3 if c[0] == "BIND" else 2)]]
+        if tr.out_of_limits or any(i is None for i in ids):
+            return True
+        if c[0] == "ADD":
+            tr.add(ids[0])
+        elif c[0] == "BIND":
+            tr.bind(ids[0], ids[1], "script:" + c[3])
+        else:
+            tr.put(ids[0])
+        if tr.out_of_limits:
+            return True
+    return True
+
+
 def first_outside_limits(h):
     """index of the first call of the history that leaves the property's
     quantifier (capacity limits / documented preconditions) according to the
@@ -650,6 +716,19 @@ def first_outside_limits(h):
                 ts[t[2]] = ts[t[1]].clone()
             else:
                 unknown.add(t[2])
+            continue
+        if k == "SCRIPT" and t[1] in ts and t[1] not in unknown:
+            # a script is the calls it makes: one that puts onto / binds an absent vertex leaves the preconditions like
+            # the direct call would; anything this reader does not follow makes the handle unknown (accepted)
+            try:
+                text = bytes.fromhex(t[2]).decode("utf-8")
+                understood = _apply_script(ts[t[1]], text)
+            except (ValueError, IndexError):
+                understood = False
+            if ts[t[1]].out_of_limits:
+                return i
+            if not understood:
+                unknown.add(t[1])
             continue
         if k in ("MERGE", "SCRIPT"):
             unknown.add(t[1])
